@@ -99,7 +99,7 @@ func main() {
 func runC14() int {
 	tier := os.Getenv("VERIF_TIER")
 	rep := ev.NewReport("C14", "model_checking")
-	p := &pool.Pool{Handler: "c14", N: 16, Timeout: 60 * time.Second, MemMB: 3072}
+	p := &pool.Pool{Handler: "c14", N: 16, Timeout: 4 * time.Minute, MemMB: 3072}
 	var tasks [][]byte
 	n := 32
 	for s := 0; s < n; s++ {
@@ -107,7 +107,7 @@ func runC14() int {
 		tasks = append(tasks, b)
 	}
 	_ = tier
-	programs, commands, distinct := 0, 0, 0
+	programs, commands, distinct, cutProgs := 0, 0, 0, 0
 	var samples []string
 	crashes := 0
 	p.Map(tasks, func(tb, out []byte, crash *pool.Crash) [][]byte {
@@ -124,6 +124,7 @@ func runC14() int {
 		programs += r.Programs
 		commands += r.Commands
 		distinct += r.Distinct
+		cutProgs += r.Cut
 		if len(samples) < 6 {
 			samples = append(samples, r.Samples...)
 		}
@@ -141,12 +142,13 @@ func runC14() int {
 		"transitions":                   commands,
 		"traces_validated_against_impl": commands,
 		"samples":                       samples,
-		"exhaustive":                    crashes == 0,
-		"programs":                      programs,
-		"agreeing_commands":             distinct,
-		"templates":                     len(templates),
-		"hostile_strings":               hostile,
-		"rule":                          "differential: for every command template (all value types) x every argument position x every hostile byte string {a, A, empty, space, 'a b', CRLF, non-UTF-8, quote, backslash, multi-byte} (and other letter cases of the command name), and every writer x reader pair with hostile arguments, from a populated keyspace: the reply and the full keyspace dump of the cluster execution path (HandleCluster -> proposal -> JSON entry -> publishEntries -> apply loop) must equal those of a standalone Manager.Handle fed the same bytes; every writer x reader pair is also committed as ONE batch of two entries from two connections (one publishEntries call), and run across a restart: after the writer the node is restarted (fresh Manager, callback table, handler) and the reader arrives while the old log is still to be re-applied (its handler waits while the entries of the previous life pass through the apply loop again)",
+		"exhaustive":                    crashes == 0 && cutProgs == 0,
+		"programs_cut_after_three_timeouts_of_their_phase": cutProgs,
+		"programs":          programs,
+		"agreeing_commands": distinct,
+		"templates":         len(templates),
+		"hostile_strings":   hostile,
+		"rule":              "differential: for every command template (all value types) x every argument position x every hostile byte string {a, A, empty, space, 'a b', CRLF, non-UTF-8, quote, backslash, multi-byte} (and other letter cases of the command name), and every writer x reader pair with hostile arguments, from a populated keyspace: the reply and the full keyspace dump of the cluster execution path (HandleCluster -> proposal -> JSON entry -> publishEntries -> apply loop) must equal those of a standalone Manager.Handle fed the same bytes; every writer x reader pair is also committed as ONE batch of two entries from two connections (one publishEntries call), and run across a restart: after the writer the node is restarted (fresh Manager, callback table, handler) and the reader arrives while the old log is still to be re-applied (its handler waits while the entries of the previous life pass through the apply loop again)",
 	}
 	return rep.Finish(cov, []string{"consensus is short-circuited (one entry per proposal, in order); Raft carries Entry.Data opaquely (C15/C16)"})
 }
